@@ -455,3 +455,12 @@ package wire
 //@   props C10
 //@   ensures result == 1 + dest.l + pnLen
 //@   modifies nothing
+
+// ---------------- Version Negotiation (C13) ----------------
+//@ func ParseVersionNegotiationPacket
+//@   trusted parser of the Version Negotiation packet body; assumed to have no side effects
+//@   modifies nothing
+
+//@ func (h *ExtendedHeader) Log
+//@   trusted logging only
+//@   modifies nothing
